@@ -50,8 +50,12 @@ KNOWN = [
               '2^1009 (b/a = 10) and, from mu, chi or xi, for tangents above 2^1010 on b/a = 0.01: the Newton iteration of '
               'FromAuxiliary overflows at a trial point although the result is representable'),
     dict(status='known', properties=['C15'],
-         match={'e': '^(cv|den)$', 'm': '^1$', 'F': '^-', '_law': '^c15-(cv|den)$', 'lt': '^(4[89][0-9]|5[0-5][0-9])$', 'oc': '^1$',
-                'a': '^([0-4]|5)$'},
+         match={'e': '^(cv|den)$', 'm': '^1$', 'F': '^-', 'a': '^5$', 'lt': '^(4[89][0-9]|5[0-5][0-9])$', 'oc': '^1$'},
+         what='AuxLatitude::Dq (authalic latitude, prolate branch) loses up to 20 bits when d = 1/(sec^2(phi) (1 + sin(phi))) is a '
+              'denormal number, tan(phi) in [2^511, 2^512.5): conversions to / from the authalic latitude on b/a = 100 are then '
+              'wrong by up to 6e-11 in the tangent'),
+    dict(status='known', properties=['C15'],
+         match={'e': '^(cv|den)$', 'm': '^1$', 'F': '^-', 'b': '^5$', 'lt': '^(4[89][0-9]|5[0-5][0-9])$', 'oc': '^1$'},
          what='AuxLatitude::Dq (authalic latitude, prolate branch) loses up to 20 bits when d = 1/(sec^2(phi) (1 + sin(phi))) is a '
               'denormal number, tan(phi) in [2^511, 2^512.5): conversions to / from the authalic latitude on b/a = 100 are then '
               'wrong by up to 6e-11 in the tangent'),
